@@ -4,9 +4,15 @@ import xml.etree.ElementTree as ET
 def main(repo="/repo"):
     base = json.load(open("/root/.vp/BASELINE.json"))
     fd, path = tempfile.mkstemp(suffix=".xml", dir="/verif/.work"); os.close(fd)
-    subprocess.run(["/venv/bin/python", "-m", "pytest", "-q", "-p", "no:cacheprovider", "--timeout=900",
-                    "--continue-on-collection-errors", "--junitxml=" + path], cwd=repo,
-                   stdout=subprocess.DEVNULL, stderr=subprocess.DEVNULL, env=dict(os.environ, PYTHONDONTWRITEBYTECODE="1"))
+    try:
+        subprocess.run(["/venv/bin/python", "-m", "pytest", "-q", "-p", "no:cacheprovider", "--timeout=900",
+                        "--continue-on-collection-errors", "--junitxml=" + path], cwd=repo,
+                       stdout=subprocess.DEVNULL, stderr=subprocess.DEVNULL,
+                       env=dict(os.environ, PYTHONDONTWRITEBYTECODE="1"), timeout=1500)
+    except subprocess.TimeoutExpired:
+        print("baseline: the test suite did not finish within 1500 s")
+        os.unlink(path)
+        return 1
     passed = set()
     for tc in ET.parse(path).getroot().iter("testcase"):
         if not any(ch.tag in ("failure", "error", "skipped") for ch in tc):
